@@ -172,10 +172,11 @@ func allAssignments(atoms []string) []map[string]bool {
 // ---- common condition atoms ----
 
 // errorAtom names the usual error-classification conditions:
-//   ok of `err.(T)`            -> is(T)
-//   errors.As(err, &t T)       -> is(T)
-//   errors.Is(err, pkg.Var)    -> is(pkg.Var)
-//   x.Timeout() on a net.Error -> timeout
+//
+//	ok of `err.(T)`            -> is(T)
+//	errors.As(err, &t T)       -> is(T)
+//	errors.Is(err, pkg.Var)    -> is(pkg.Var)
+//	x.Timeout() on a net.Error -> timeout
 func errorAtom(cond ssa.Value) (string, bool) {
 	cond = stripConv(cond)
 	if e, ok := cond.(*ssa.Extract); ok && e.Index == 1 {
